@@ -181,10 +181,11 @@ def ob_greedy_agent(cname, cls):
             else:
                 opt = cls.__new__(cls)
                 acls = typing.get_type_hints(cls._greedy_select_agent).get("agent", Agent)
-            inc, ch = sub_agent(acls, "inc", sym.ext_real("inc")), sub_agent(acls, "ch", sym.ext_real("ch"))
+            # every float kind, NaN included: "keeps the incumbent unless the challenger is strictly cheaper" is literal
+            inc, ch = sub_agent(acls, "inc", sym.any_float("inc")), sub_agent(acls, "ch", sym.any_float("ch"))
             got = opt._greedy_select_agent(inc, ch)
-            is_ch = got.position == ch.position and got.cost == ch.cost
-            is_inc = got.position == inc.position and got.cost == inc.cost
+            is_ch = got.position == ch.position
+            is_inc = got.position == inc.position
             if not (is_ch or is_inc):
                 return Failure("greedy_agent:result-is-neither")
             if not (ch.cost < inc.cost) and not is_inc:
